@@ -293,3 +293,58 @@ Definition known_bad_C08 (u : N) (p : fpic) : option Z :=
       else None
   | PText _ _ _ => None
   end.
+
+(* ------------------------------------------------------------------------------------------
+   DEPENDING ON counters declared before their tables.  A counter is an elementary item without
+   OCCURS and outside every REDEFINES union; [decl x] lists the counters declared inside x (not
+   looking into redefining items), [odo_ok seen x] says every OCCURS DEPENDING ON inside x names a
+   counter declared earlier in the description ([seen]) - inside a redefining item: earlier inside
+   that item. *)
+Definition eligible (x : item) (xs : items) : bool :=
+  match x with
+  | Elem i _ Once None => negb (existsb (N.eqb i) (redef_targets xs))
+  | _ => false
+  end.
+
+Fixpoint decl (x : item) : list id :=
+  match x with Elem _ _ _ _ => [] | Group _ _ _ ks => decl_kids ks end
+with decl_kids (ks : items) : list id :=
+  match ks with
+  | INil => []
+  | ICons x xs =>
+      (match item_redef x with
+       | Some _ => []
+       | None => (if eligible x xs then [item_id x] else []) ++ decl x
+       end) ++ decl_kids xs
+  end.
+
+Definition counter_in (o : occ) (seen : list id) : bool :=
+  match o with Odo c => existsb (N.eqb c) seen | _ => true end.
+
+Fixpoint odo_ok (seen : list id) (x : item) : bool :=
+  counter_in (item_oc x) seen && match x with Elem _ _ _ _ => true | Group _ _ _ ks => odo_kids seen ks end
+with odo_kids (seen : list id) (ks : items) : bool :=
+  match ks with
+  | INil => true
+  | ICons x xs =>
+      match item_redef x with
+      | Some _ => odo_ok [] x && odo_kids seen xs
+      | None => odo_ok seen x && odo_kids ((if eligible x xs then [item_id x] else []) ++ decl x ++ seen) xs
+      end
+  end.
+
+(* the reference sites of a schema in the order the loader meets them (an array's own reference
+   after the sites inside its items) *)
+Fixpoint site_keys (s : js) : list key :=
+  match s with
+  | JAtom _ _ => []
+  | JArr _ _ its => site_keys its
+  | JOdo _ c its => site_keys its ++ [KName c]
+  | JObj _ ps => site_keys_props ps
+  | JOne _ alts => site_keys_alts alts
+  | JRef k => [k]
+  end
+with site_keys_props (ps : props) : list key :=
+  match ps with PNil => [] | PCons _ s r => site_keys s ++ site_keys_props r end
+with site_keys_alts (alts : jalts) : list key :=
+  match alts with ANil => [] | ACons s r => site_keys s ++ site_keys_alts r end.
